@@ -233,6 +233,9 @@ def run_penalty(rng, obs):
     pt = None
     if ptype is not None:
         pt = [[getattr(mp, ptype + '_inequality')] * len(conds[0]), [getattr(mp, ptype + '_equality')] * len(conds[1])]
+        # a text whose lines are all of one kind may also be given ONE penalty type for all of its conditions (documented: "a mystic.penalty type, or a list ...")
+        if (not len(conds[0]) or not len(conds[1])) and rng.random() < 0.6:
+            pt = getattr(mp, ptype + ('_inequality' if len(conds[0]) else '_equality')); obs.desc['ptype_form'] = 'single'; obs.event('single_penalty_type_for_all_lines')
     # join=: the per-line penalties combined by a coupler (and_: their sum, or_: the smallest of them) instead of being stacked
     join = rng.choice([None, None, None, 'and_']) if 'groups' not in obs.desc else None
     if join:
